@@ -352,7 +352,7 @@ func (s *stressRun) consumer() {
 			minWhole := 1
 			if front != nil {
 				if !bytes.HasPrefix(b, front) {
-					s.report("c20/stream:dequeueall-"+classify(b), "DequeueAll(): the put-back element %s must be re-read first, got %s\nlast consumer operations:\n%s", clipB(front), clipB(b), joinLines(tr.list()))
+					s.report("c20/stream:dequeueall-putback-not-first", "DequeueAll(): the put-back element %s must be re-read first, got %s\nlast consumer operations:\n%s", clipB(front), clipB(b), joinLines(tr.list()))
 					return
 				}
 				rest = b[len(front):]
@@ -406,7 +406,7 @@ func (s *stressRun) consumer() {
 			tr.add(rec{op: "Dequeue", b: b})
 			if front != nil {
 				if !bytes.Equal(b, front) {
-					s.report("c20/stream:dequeue-"+classify(b), "Dequeue(): the put-back element %s must be re-read first, got %s\nlast consumer operations:\n%s", clipB(front), clipB(b), joinLines(tr.list()))
+					s.report("c20/stream:dequeue-putback-not-first", "Dequeue(): the put-back element %s must be re-read first, got %s\nlast consumer operations:\n%s", clipB(front), clipB(b), joinLines(tr.list()))
 					return
 				}
 				front = nil
